@@ -49,7 +49,7 @@ def export_all(sd_base, wd, tier, timeout, only=None):
     """Design-level exploration + schedule export: the configurations are split round-robin over SHARDS (default 8) TLC processes
     (1 worker each, BFS - the coverage registers need a single worker); a schedule's coverage key contains its
     configuration name, so the union of the shards' exports equals the export of one run over all configurations."""
-    nshard = int(os.environ.get("VERIF_SHARDS", "8"))
+    nshard = int(os.environ.get("VERIF_SHARDS", "8" if tier == "quick" else "5"))   # thorough: fewer, bigger JVMs (memory)
 
     def one(i):
         sd = os.path.join(wd, "mc%d" % i)
@@ -58,7 +58,7 @@ def export_all(sd_base, wd, tier, timeout, only=None):
         n = swapfsm_cfgs.write(os.path.join(sd, "PeerSwapCfgs.tla"), tier, only, (i, nshard))
         if n == 0:
             return dict(generated=0, distinct=0, depth=0, wall=0.0), [], 0
-        res = vp.tlc("PeerSwapExport", "PeerSwapExport.cfg", sd, workers=1, timeout=timeout, heap="6g", quiet=True)
+        res = vp.tlc("PeerSwapExport", "PeerSwapExport.cfg", sd, workers=1, timeout=timeout, heap="6g" if tier == "quick" else "7g", quiet=True)
         scheds = []
         for p in sorted(glob.glob(os.path.join(sd, "out", "s_*.json")), key=lambda q: int(q.split("_")[-1].split(".")[0])):
             s = json.load(open(p))
